@@ -43,6 +43,13 @@ var (
 // samePayload: three points of ONE identity of which two or all three carry the same value, text, data,
 // tombstone and origin and differ in nothing but the time ("the same reading sent again later").
 func c01Body(edge bool, maxN int, samePayload ...bool) mc.Body {
+	return c01BodyI(edge, maxN, c01Idents, samePayload...)
+}
+
+// c01EmptyType: identities whose type is the empty string next to typed ones with the same key
+var c01EmptyType = []c01Ident{{"", ""}, {"a", ""}, {"", "b"}, {"a", "b"}}
+
+func c01BodyI(edge bool, maxN int, c01Idents []c01Ident, samePayload ...bool) mc.Body {
 	same := len(samePayload) > 0 && samePayload[0]
 	return func(x *mc.X) mc.Outcome {
 		n := 1 + x.Choose(maxN, "npoints")
@@ -271,6 +278,8 @@ func checkC01(r *mc.Report, thorough bool) {
 	rule := fmt.Sprintf("all point lists of 1..%d points over 6 identities (incl. (a,\"\")/(a,\"0\") and the (ab,\"\")/(a,b)/(a,b0)/(a0,\"\") concatenation collisions, raw and with the key default), 4 timestamp assignments (small / int64 extremes, rising / falling against the other fields), x all permutations x all compositions into batches x one re-delivery of any batch at any later position; read-back checked after every delivery", n)
 	r.Explore(mc.Config{Name: fmt.Sprintf("node-points-n%d", n), Rule: rule, SelfCheckEvery: 5000}, c01Body(false, n))
 	r.Explore(mc.Config{Name: fmt.Sprintf("edge-points-n%d", n), Rule: rule, SelfCheckEvery: 5000}, c01Body(true, n))
+	r.Explore(mc.Config{Name: "node-points-empty-type-n3", Rule: "as node-points-n3 over the identities (\"\",\"\"), (a,\"\"), (\"\",b), (a,b): a point whose type is the empty string is an identity of its own", SelfCheckEvery: 5000}, c01BodyI(false, 3, c01EmptyType))
+	r.Explore(mc.Config{Name: "edge-points-empty-type-n3", Rule: "the same for edge points", SelfCheckEvery: 5000}, c01BodyI(true, 3, c01EmptyType))
 	sameRule := "three points of one identity of which two (any two) or all three carry the same value, text, data, tombstone and origin and differ only in their time; timestamps rising / falling with the index; all permutations x all compositions into batches x one re-delivery; read-back (time included) checked after every delivery"
 	r.Explore(mc.Config{Name: "node-points-same-payload", Rule: sameRule}, c01Body(false, 3, true))
 	r.Explore(mc.Config{Name: "edge-points-same-payload", Rule: sameRule}, c01Body(true, 3, true))
@@ -285,6 +294,8 @@ func init() {
 		bodies[fmt.Sprintf("C01/node-points-n%d", n)] = c01Body(false, n)
 		bodies[fmt.Sprintf("C01/edge-points-n%d", n)] = c01Body(true, n)
 	}
+	bodies["C01/node-points-empty-type-n3"] = c01BodyI(false, 3, c01EmptyType)
+	bodies["C01/edge-points-empty-type-n3"] = c01BodyI(true, 3, c01EmptyType)
 	bodies["C01/node-points-same-payload"] = c01Body(false, 3, true)
 	bodies["C01/edge-points-same-payload"] = c01Body(true, 3, true)
 }
